@@ -112,6 +112,9 @@ fn templates(b: B, n: Nm) -> Vec<(&'static str, Option<String>)> {
         let st = Table::alter().table(a(0)).drop_foreign_key(a(1)).to_owned();
         v.push(("alter drop foreign key", to_string_s(b, &st)));
     }
+    // the one place where an identifier is quoted when the expression is CONSTRUCTED (the caller passes the quote)
+    let q = Query::select().expr(Func::cast_as_quoted(Expr::col(a(0)), a(1), qb(b).quote())).from(a(2)).to_owned();
+    v.push(("cast_as_quoted type name", to_string_q(b, &q)));
     if b == B::Postgres {
         let st = Type::create().as_enum((a(0), a(1))).values([Alias::new("v")]).to_owned();
         v.push(("create type", catch(|| st.to_string(PostgresQueryBuilder))));
@@ -129,9 +132,15 @@ fn templates(b: B, n: Nm) -> Vec<(&'static str, Option<String>)> {
 fn check_positions(ctx: &mut Ctx, b: B, nasty: &[String]) {
     let plain = |i: usize| format!("p{i}x");
     let nn = |i: usize| nasty[i % nasty.len()].clone() + &format!("{i}");
+    // the nasty text at BOTH ends of the name (a name that looks quoted already)
+    // (a type name ending in `[]` means "array of" to the enum cast, by design: not such a name)
+    let nn2 = |i: usize| { let s = format!("{}{i}{}", nasty[i % nasty.len()], nasty[i % nasty.len()]); if s.ends_with("[]") { s + "_" } else { s } };
     let tp = templates(b, &plain);
     let tn = templates(b, &nn);
-    for ((pos, sp), (_, sn)) in tp.into_iter().zip(tn.into_iter()) {
+    let tn2 = templates(b, &nn2);
+    let both: Vec<((&'static str, Option<String>), (&'static str, Option<String>), bool)> = tp.iter().cloned().zip(tn.into_iter()).map(|(p, n)| (p, n, false)).chain(tp.iter().cloned().zip(tn2.into_iter()).map(|(p, n)| (p, n, true))).collect();
+    for ((pos, sp), (_, sn), wrapped) in both.into_iter() {
+        let nn = |i: usize| if wrapped { nn2(i) } else { nn(i) };
         ctx.eval_only(&format!("pos {} {} {:?}", b.name(), pos, nasty), true);
         ctx.count(&format!("position.{pos}"));
         let (sp, sn) = match (sp, sn) {
